@@ -369,8 +369,7 @@ class State:
                     elif len(args) != 0:
                         raise TypeError(f"service {domain}.{service} takes no positional arguments")
 
-                    # return await Function.hass_services_async_call(domain, service, kwargs, **hass_args)
-                    return await cls.hass.services.async_call(domain, service, kwargs, **hass_args)
+                    return await Function.hass_services_async_call(domain, service, kwargs, **hass_args)
 
                 return service_call
 
